@@ -403,6 +403,9 @@ def run(ck):
                         line = "setref %d" % k
                     else:
                         k = rng.choice([1, 1, 1, 2, 4])
+                        nprop = sum(1 for k_ in kinds_seen if k_ == "prop")
+                        if s % 2 == 1 and nprop < 4:
+                            k = (2, 2, 4, 4)[nprop]          # the same refinement asked for twice in a row on one propagator
                         inside = rng.random() < 0.4
                         rec.update(nref_arg=k, inside_eigenbasis_of=inside, tensor=[main_key[0], dict(main_key[1])])
                         pstate_before = {}
@@ -562,6 +565,11 @@ def run(ck):
                         base.update(snapshot({"ratematrix": rmo, "ratearray": inputs["ratearray"]}))
                         props["pop"] = PopulationPropagator(ta, rmo)
                         props["pop-array"] = PopulationPropagator(ta, inputs["ratearray"].data)
+                        # a propagator whose own time axis does not start at zero, and the sub-axis (an input like any other) it is asked for
+                        inputs["time100"] = TimeAxis(100.0, ta.length, ta.step)
+                        inputs["subaxis100"] = TimeAxis(100.0, 4, 5.0)
+                        base.update(snapshot({"time100": inputs["time100"], "subaxis100": inputs["subaxis100"]}))
+                        props["pop-shifted"] = PopulationPropagator(inputs["time100"], rmo)
                     which = "pop" if (ic % 2 == 0) else "pop-array"
                     rec["rate_matrix_given_as"] = "RateMatrix object" if which == "pop" else "float64 array"
                     if op == "pop":
@@ -572,9 +580,12 @@ def run(ck):
                         corr = plan[ic][1]
                         rec["corrections"] = corr
                         tsub = TimeAxis(0.0, 4, 5.0)
+                        if ic % 3 == 2:
+                            which, tsub = "pop-shifted", inputs["subaxis100"]
+                            rec["rate_matrix_given_as"] = "RateMatrix object; propagator and sub-axis start at 100 fs"
                         out_ = props[which].get_PropagationMatrix(tsub, corrections=corr) if corr >= 0 else props[which].get_PropagationMatrix(tsub)
-                        res = numpy.array(out_[0] if corr >= 0 else out_).ravel()
-                        key = ("popmat", which)
+                        res = numpy.concatenate([numpy.array(x_).ravel() for x_ in out_]) if corr >= 0 else numpy.array(out_).ravel()
+                        key = ("popmat", which, corr)
                     line = "pure 1"
                 elif op == "eso":
                     tk0 = ("standard_Redfield", ())
